@@ -404,11 +404,22 @@ func (r *Recomposer) recomp(v any, rv reflect.Value) {
 		switch {
 		case et.Kind() == reflect.Interface:
 			for k, m := range vm {
-				rv.SetMapIndex(reflect.ValueOf(k), reflect.ValueOf(r.recompAny(m)))
+				// SetMapIndex with the zero Value, which is what
+				// reflect.ValueOf(nil) is, deletes the key.
+				if m = r.recompAny(m); m == nil {
+					rv.SetMapIndex(reflect.ValueOf(k), reflect.Zero(et))
+				} else {
+					rv.SetMapIndex(reflect.ValueOf(k), reflect.ValueOf(m))
+				}
 			}
 		case et.Kind() == reflect.Ptr:
+			pt := et
 			et = et.Elem()
 			for k, m := range vm {
+				if m == nil {
+					rv.SetMapIndex(reflect.ValueOf(k), reflect.Zero(pt))
+					continue
+				}
 				ev := reflect.New(et)
 				r.recomp(m, ev)
 				rv.SetMapIndex(reflect.ValueOf(k), ev)
